@@ -154,7 +154,11 @@ func runChild(c *vf.Ctx, cd caseDef, tmp string) caseOut {
 		}
 		o = caseOut{Case: cd, SetupErr: fmt.Sprintf("worker exit=%d finished=%v err=%v log tail: %s", code, ok, err, tail)}
 	}
-	os.Remove(logp)
+	if kd := os.Getenv("VERIF_C18_KEEPLOG"); kd != "" {
+		os.Rename(logp, filepath.Join(kd, filepath.Base(logp)))
+	} else {
+		os.Remove(logp)
+	}
 	return o
 }
 
